@@ -12,6 +12,7 @@ import (
 	"crypto/ed25519"
 	"encoding/json"
 	"fmt"
+	"github.com/tidwall/sjson"
 	"sync"
 	"time"
 
@@ -84,7 +85,7 @@ func c19TouchesID(c c19AccCase, idx int) bool {
 }
 
 var c19AccVersions = []string{"10", "12", "3", "4", "11", "6", "9", "org.matrix.hydra.11", "org.matrix.msc4014", "1", "2"}
-var c19AccKinds = []string{"message", "member", "create", "power", "power-full", "joinrules", "histvis", "redaction"}
+var c19AccKinds = []string{"message", "message-long-sticky", "member", "create", "power", "power-full", "joinrules", "histvis", "redaction"}
 
 func c19AccGen(t *rapid.T) c19AccCase {
 	c := c19AccCase{
@@ -182,6 +183,17 @@ func c19AccBuild(c c19AccCase) ([]byte, IRoomVersion, error) {
 	case "power-full":
 		// every section of the content present, including the rarely used ones
 		ev, err = c19AccBuildOne(ver, roomID, spec.MRoomPowerLevels, &empty, `{"users":{"@u:c19.example":100,"@v:c19.example":50},"users_default":1,"events":{"m.room.name":60,"m.room.power_levels":100},"events_default":2,"state_default":51,"ban":52,"kick":53,"redact":54,"invite":3,"notifications":{"room":10,"org.example.custom":7}}`, "", 3, prev, auth)
+	case "message-long-sticky":
+		// asks for more than the hour that stickiness is capped at, under both spellings of the key
+		ev, err = c19AccBuildOne(ver, roomID, "m.room.message", nil, `{"body":"hello","msgtype":"m.text"}`, "", 4, prev, auth)
+		if err == nil {
+			var js []byte
+			if js, err = sjson.SetRawBytes(ev.JSON(), "sticky", []byte(`{"duration_ms":7200000}`)); err == nil {
+				if js, err = sjson.SetRawBytes(js, "msc4354_sticky", []byte(`{"duration_ms":86400000}`)); err == nil {
+					return js, ver, nil
+				}
+			}
+		}
 	case "joinrules":
 		ev, err = c19AccBuildOne(ver, roomID, spec.MRoomJoinRules, &empty, `{"join_rule":"public"}`, "", 3, prev, auth)
 	case "histvis":
